@@ -226,6 +226,32 @@ def startSingle (r : Ring) (cur : Option Res) (ns typ id : String) (o : StartOpt
         | none => { typ := .destroyed, res := tombstone ns typ id }
       .ok (r.writePos, [[init]])
 
+/-- start position of WatchAll (collection.go:482-508) -/
+def kindStartPos (r : Ring) (o : StartOpts) : Except StartErr Nat :=
+  if o.tail > 0 then
+    let t : Int := if (o.tail : Int) > (r.cap : Int) - r.gap then (r.cap : Int) - r.gap else o.tail
+    let p : Int := (r.writePos : Int) - t
+    .ok (if p < 0 then 0 else p.toNat)
+  else match o.bookmark with
+    | some b =>
+      match decodeBm b with
+      | none => .error .invalidBookmark
+      | some p =>
+        if p < (r.writePos : Int) - r.cap + r.gap ∨ p < -1 ∨ p ≥ r.writePos then .error .invalidBookmark
+        else .ok (p + 1).toNat
+    | none => .ok r.writePos
+
+/-- bootstrap deliveries of WatchAll (collection.go:521-587) for start position `pos` -/
+def kindInit (contents : List Res) (ns typ : String) (agg : Bool) (o : StartOpts) (pos : Nat) : List Delivery :=
+  let bmEv (t : EvType) : Event := { typ := t, res := tombstone ns typ "", bm := some ((pos : Int) - 1) }
+  let boot : List Delivery :=
+    if o.bootstrap then
+      let evs := contents.map fun c => ({ typ := .created, res := c } : Event)
+      if agg then [evs ++ [bmEv .bootstrapped]] else (evs ++ [bmEv .bootstrapped]).map fun e => [e]
+    else []
+  let bb : List Delivery := if o.bootstrapBookmark then [[bmEv .noop]] else []
+  boot ++ bb
+
 /-- WatchAll (collection.go:446): start position and the bootstrap deliveries.
     `contents` is the (already filtered and id-sorted) snapshot. -/
 def startKind (r : Ring) (contents : List Res) (ns typ : String) (agg : Bool) (o : StartOpts) :
@@ -233,30 +259,9 @@ def startKind (r : Ring) (contents : List Res) (ns typ : String) (agg : Bool) (o
   if o.bootstrap ∧ (o.tail > 0 ∨ o.bookmark.isSome) then .error .other
   else if o.bookmark.isSome ∧ o.tail > 0 then .error .other
   else
-    let posE : Except StartErr Nat :=
-      if o.tail > 0 then
-        let t : Int := if (o.tail : Int) > (r.cap : Int) - r.gap then (r.cap : Int) - r.gap else o.tail
-        let p : Int := (r.writePos : Int) - t
-        .ok (if p < 0 then 0 else p.toNat)
-      else match o.bookmark with
-        | some b =>
-          match decodeBm b with
-          | none => .error .invalidBookmark
-          | some p =>
-            if p < (r.writePos : Int) - r.cap + r.gap ∨ p < -1 ∨ p ≥ r.writePos then .error .invalidBookmark
-            else .ok (p + 1).toNat
-        | none => .ok r.writePos
-    match posE with
+    match kindStartPos r o with
     | .error e => .error e
-    | .ok pos =>
-      let bmEv (t : EvType) : Event := { typ := t, res := tombstone ns typ "", bm := some ((pos : Int) - 1) }
-      let boot : List Delivery :=
-        if o.bootstrap then
-          let evs := contents.map fun c => ({ typ := .created, res := c } : Event)
-          if agg then [evs ++ [bmEv .bootstrapped]] else (evs ++ [bmEv .bootstrapped]).map fun e => [e]
-        else []
-      let bb : List Delivery := if o.bootstrapBookmark then [[bmEv .noop]] else []
-      .ok (pos, boot ++ bb)
+    | .ok pos => .ok (pos, kindInit contents ns typ agg o pos)
 
 end Cosi
 
